@@ -269,6 +269,13 @@ impl Backend {
         }
     }
 
+    fn state_mut(&mut self) -> &mut fixtures::DefState {
+        match self {
+            Backend::State(s) => s,
+            Backend::Engine(e) => &mut e.state,
+        }
+    }
+
     fn account(&mut self, event: AccountEvent) {
         match self {
             Backend::State(s) => {
@@ -568,6 +575,27 @@ fn run_history(topo: &Topo, via_engine: bool, steps: &[Step], stats: &mut Stats)
             }
         }
         before = after;
+
+        // LIFE CYCLE: the state is `Serialize + Deserialize` (persisted engine state, audit snapshots): now and then every
+        // asset state and the instrument states are replaced by the copies restored from their own JSON, which must equal
+        // them; the history carries on with the copies (whose answers to later - possibly stale - deliveries are judged
+        // like any other)
+        if (idx * 3 + steps.len()) % 7 == 2 {
+            stats.checks += 1;
+            let st = backend.state_mut();
+            let mut all = true;
+            for a in 0..topo.n_assets {
+                all &= fixtures::persist_and_restore("asset state", st.assets.asset_index_mut(&AssetIndex(a)))
+                    .map_err(|why| ("state_changed_by_persisting_and_restoring".to_string(), format!("after step #{idx} {step:?}: asset {a}: {why}"), idx))?;
+            }
+            all &= fixtures::persist_and_restore("instrument states", &mut st.instruments)
+                .map_err(|why| ("state_changed_by_persisting_and_restoring".to_string(), format!("after step #{idx} {step:?}: {why}"), idx))?;
+            stats.hit(if all { "lifecycle:state_persisted_and_restored" } else { "lifecycle:part_of_the_state_does_not_serialise_to_json" });
+            let now = observe(topo, backend.state());
+            if now != before {
+                return Err(("state_changed_by_persisting_and_restoring".to_string(), format!("after step #{idx} {step:?}: what the restored state reports differs from what the persisted one reported"), idx));
+            }
+        }
     }
     Ok(())
 }
@@ -931,6 +959,7 @@ fn main() {
             "routing:exchange0",
             "routing:exchange1",
             "interleaved_items",
+            "lifecycle:state_persisted_and_restored",
         ] {
             report.require(c);
         }
